@@ -5,7 +5,8 @@ Case kinds (judged separately through their clause names; `closed_loop` depends 
                sources near/over the image edges, additivity over a random split
   mask         mask mode (frac / sigma) against the set {reference model >= threshold}
   files        make_residual on FITS images with csv/fits/vot catalogues with renamed columns: subtract (+ model
-               file), add, add-then-subtract restoration, mask
+               file), add, add-then-subtract restoration, mask; input images float32, float64, and with integer pixel
+               type (BITPIX 16/32 without BSCALE: counts of ~100 with peaks of ~40, and int16 with BSCALE as control)
   closed_loop  noise-free image of isolated sources -> SourceFinder.find_sources_in_image (rms forced to
                0.02 |peak|, bkg 0) -> make_model of the extracted catalogue -> residual < 1e-3 |peak|
 
@@ -45,7 +46,8 @@ MIN_COUNTERS = {'sources_compared_with_render': 300, 'sources_in_last_half_pixel
                 'sources_within_3px_of_edge': 30, 'additivity_comparisons': 10, 'mask_images': 6, 'files_checked': 12,
                 'restorations_checked': 3, 'closed_loop_fields': 4, 'closed_loop_sources_matched': 8,
                 'c16_contract_sky2pix_ellipse': 300, 'shared_shape_catalogues': 10, 'whole_models_compared_with_render': 10,
-                'mask_files_via_cli': 1}
+                'mask_files_via_cli': 1, 'files_checked_integer_input': 12, 'files_checked_integer_input_bscale': 4,
+                'mask_files_integer_input': 4, 'restorations_checked_integer_input': 2}
 
 TOL_MODEL = 1e-4        # of |peak|, statement
 TOL_LOOP = 1e-3         # of |peak|, statement
@@ -164,6 +166,18 @@ def cases(seed, tier):
         c['shape'] = [int(rng.integers(150, 200)), int(rng.integers(150, 200))]
         c['crpix'] = [c['shape'][1] / 2.0 + float(rng.uniform(-20, 20)), c['shape'][0] / 2.0 + float(rng.uniform(-20, 20))]
         out.append(c)
+    # input images stored with an integer pixel type (BITPIX 16/32 without BSCALE/BZERO - count maps) and, as control,
+    # BSCALE'd int16 and float64; appended last so that the cases above are unchanged
+    ptypes = ['int16', 'int32', 'int16_bscale', 'int32', 'int16', 'float64']
+    for t, proj in enumerate(wz.PROJECTIONS):
+        for rep in range(1 if q else 6):
+            rng = rng_for(seed, 'c14pixtype', proj, rep)
+            c = {'kind': 'files', 'fmt': fmts[(t + rep + 1) % 3], 'nsrc': int(rng.integers(2, 15)),
+                 'pixtype': ptypes[(t + rep) % len(ptypes)],
+                 'sigma': [2.5, 4.0, 10.0, 25.0][(t + rep) % 4], 'mask_via_cli': bool((t + rep) % 2 == 0),
+                 'seed': [seed, 'pixtype', proj, rep]}
+            c.update(_header_params(rng, 900 + t + 5 * rep, proj))
+            out.append(c)
     return out
 
 
@@ -593,19 +607,44 @@ def _run_files(case, o, rng, z, hdr, shape, scale_as, AeRes, tmp):
     fmt = case['fmt']
     sigma = float(case.get('sigma', 4.0))
     o.see('mask_sigma_through_make_residual', sigma)
+    pixtype = case.get('pixtype', 'float32')
+    o.see('input_pixel_type', pixtype)
+    if pixtype.startswith('int'):
+        # integer images: peaks of some tens of counts, so that a result squeezed back into integers is visible
+        typ0 = float(np.median([s['peak'] for s in srcs]))
+        for s in srcs:
+            s['peak'] = s['peak'] * (40.0 / typ0)
     rms = [s['peak'] * float(rng.uniform(0.01, 0.5)) / sigma for s in srcs]
     cat = os.path.join(tmp, 'cat.' + fmt)
     _write_catalogue(cat, srcs, fmt, rms)
     typ = float(np.median([s['peak'] for s in srcs]))
     data = (rng.normal(0.0, 0.05 * typ, shape)).astype(np.float32)
     img = os.path.join(tmp, 'img.fits')
-    fits.PrimaryHDU(data, header=hdr).writeto(img, overwrite=True)
+    if pixtype == 'float32':
+        fits.PrimaryHDU(data, header=hdr).writeto(img, overwrite=True)
+    elif pixtype == 'float64':
+        data = rng.normal(0.0, 0.05 * typ, shape)
+        fits.PrimaryHDU(data, header=hdr).writeto(img, overwrite=True)
+    else:
+        big = pixtype.startswith('int32')
+        raw = np.rint(rng.normal(0.0, 3.0, shape) + (70000 if big else 100)).astype(np.int32 if big else np.int16)
+        fits.PrimaryHDU(raw, header=hdr).writeto(img, overwrite=True)
+        data = raw
+        if pixtype.endswith('_bscale'):
+            with fits.open(img, mode='update', do_not_scale_image_data=True) as hl_:
+                hl_[0].header['BSCALE'] = 0.5
+            data = (raw * 0.5).astype(np.float32)
+        with fits.open(img, do_not_scale_image_data=True) as hl_:           # harness self-check of the input file
+            if hl_[0].header['BITPIX'] != (32 if big else 16) or 'BZERO' in hl_[0].header or \
+                    not np.array_equal(hl_[0].data, raw) or ('BSCALE' in hl_[0].header) != pixtype.endswith('_bscale'):
+                raise RuntimeError('harness: could not write the %s input image' % pixtype)
     inimg = [(s, r) for s, r in zip(srcs, rms) if _classify(z, shape, s)[0] == 'in']
     refs = [render.render(z, shape, [s], nsigma=7.0) for s, _ in inimg]
     ref = np.sum(refs, axis=0) if refs else np.zeros(shape)
     tol_model = sum((TOL_MODEL * abs(s['peak'])) * (r != 0) + 4e-6 * abs(s['peak']) for (s, _), r in zip(inimg, refs)) \
         if refs else np.zeros(shape)
     wit = {'fmt': fmt, 'colmap': COLMAP, 'n_sources': len(srcs), 'sigma': sigma, 'mask_via_cli': bool(case.get('mask_via_cli')),
+           'input_pixel_type': pixtype,
            'header': _hdr_witness(case)}
 
     def call(what, rfile, **kw):
@@ -624,6 +663,8 @@ def _run_files(case, o, rng, z, hdr, shape, scale_as, AeRes, tmp):
 
     def judge(name, got, expect, tol):
         o.count('files_checked')
+        if pixtype.startswith('int'):
+            o.count('files_checked_integer_input' + ('_bscale' if pixtype.endswith('_bscale') else ''))
         o.n_eval += 1
         if got.shape != expect.shape:
             o.violate(name + '_shape', dict(wit, got=list(got.shape)))
@@ -657,6 +698,8 @@ def _run_files(case, o, rng, z, hdr, shape, scale_as, AeRes, tmp):
             o.count('restorations_checked')
             tol = 2 * EPS32 * np.maximum(np.maximum(np.abs(d), np.abs(added.astype(float))), np.abs(ref)) + 1e-38
             judge('add_then_subtract_restores', back, d, tol)
+            if pixtype.startswith('int') and not pixtype.endswith('_bscale'):
+                o.count('restorations_checked_integer_input')
     for mode in ('frac', 'sigma'):
         r_m = os.path.join(tmp, 'r_mask_%s.fits' % mode)
         if mode == 'frac':
@@ -675,6 +718,8 @@ def _run_files(case, o, rng, z, hdr, shape, scale_as, AeRes, tmp):
         must_nan, must_clear = _mask_expectation(z, shape, [s for s, _ in inimg], thr)
         o.count('files_checked')
         o.count('mask_files')
+        if pixtype.startswith('int') and not pixtype.endswith('_bscale'):
+            o.count('mask_files_integer_input')
         o.n_eval += 1
         o.count('mask_pixels_undetermined', int((~must_nan & ~must_clear).sum()))
         bad1 = must_nan & ~np.isnan(got)
